@@ -304,8 +304,8 @@ def main(ctx, replay):
     if info["hbin"] is None:
         raise RuntimeError("harness build failed:\n" + info.get("go_log", ""))
     quick = ctx.tier == "quick"
-    n_cfg = 60 if quick else 400
-    n_http, n_direct = (110, 90) if quick else (300, 240)
+    n_cfg = 50 if quick else 400
+    n_http, n_direct = (100, 80) if quick else (300, 240)
     assumptions = [
         "net/http request parsing, url.Parse/URL.Query, netip.ParseAddr/ParsePrefix are taken from Go (the model receives what the handler sees; netip.ParseAddr as a table over every substring of the RemoteAddr values seen)",
         "strings.ToLower is modelled for ASCII (net/http refuses non-ASCII Host bytes before the handler); generated hosts are ASCII",
@@ -397,7 +397,7 @@ def main(ctx, replay):
         for ci in s:
             b.append("Definition cfg%d : list route := [%s]." % (ci, ";\n ".join(route_coq(r) for r in cfg_out[ci]["routes"])))
             pairs = "; ".join("(%d%%nat, %d%%nat)" % (a, r) for _, a, r in cases[ci])
-            b.append("Definition out%d := Eval vm_compute in map (fun pr => run cfg%d (nth (fst pr) reqs dummy) (nth (snd pr) remotes [])) [%s].\nPrint out%d." % (ci, ci, pairs, ci))
+            b.append("Definition out%d := Eval vm_compute in map (fun pr => run cfg%d (nth (fst pr) reqs dummy) (nth (snd pr) remotes [])) [%s].\nRedirect \"c10out%d\" Print out%d." % (ci, ci, pairs, ci, ci))
         bodies.append("\n".join(b) + "\n")
     results = C.coq_eval_shards(ctx, "c10cases", bodies)
     model = {}
@@ -407,7 +407,7 @@ def main(ctx, replay):
             model_fail.append(out[-1500:])
             continue
         for ci in s:
-            rows = L.parse_nested(out, "out%d" % ci)
+            rows = L.parse_nested(L.read_redirect(ctx, "c10out%d" % ci), "out%d" % ci)
             if rows is None or len(rows) != len(cases[ci]):
                 model_fail.append("could not parse out%d" % ci)
                 continue
